@@ -6416,3 +6416,289 @@ func rulePropTyped(prop string) ruleFn {
 		}
 	}
 }
+
+// PARSE-RECOVER (C13): a schedule that makes the third-party parser panic is a bad schedule.
+func ruleParseRecover(w *World, r *Report) {
+	r.Rule("PARSE-RECOVER", "cronexpr.Parse (third-party) panics on some ill-formed expressions (a reversed range, `1-0 * * * *`: index out of range), and the schedule of a rule is client input that reaches it through AddRule.  Every call of cronexpr.Parse / MustParse in rulio is therefore made in a function that defers a function that calls recover() and stores into an error result: the panic comes back as the error of a bad schedule instead of going up through the add hook, State.Add, System.AddRule and the service", 2)
+	n := 0
+	for _, fn := range w.Funcs {
+		if !w.IsRulio(fn) || isTestFile(w, fn) {
+			continue
+		}
+		allInstrs(fn, func(in ssa.Instruction) {
+			c := callOf(in)
+			if c == nil {
+				return
+			}
+			o := calleeObj(c)
+			if o == nil || o.Pkg() == nil || !strings.HasSuffix(o.Pkg().Path(), "gorhill/cronexpr") || (o.Name() != "Parse" && o.Name() != "MustParse") {
+				return
+			}
+			n++
+			key := "fn=" + fname(fn) + " call=cronexpr." + o.Name()
+			host := outermost(fn)
+			recovers := false
+			withAnon(host, func(g *ssa.Function) {
+				if g == host {
+					return
+				}
+				deferred := false
+				allInstrs(host, func(x ssa.Instruction) {
+					if d, ok := x.(*ssa.Defer); ok {
+						if mc, ok := d.Call.Value.(*ssa.MakeClosure); ok && mc.Fn == g {
+							deferred = true
+						}
+						if d.Call.Value == ssa.Value(g) {
+							deferred = true
+						}
+					}
+				})
+				if !deferred {
+					return
+				}
+				rec, sets := false, false
+				allInstrs(g, func(x ssa.Instruction) {
+					if cc, ok := x.(*ssa.Call); ok {
+						if b, ok := cc.Common().Value.(*ssa.Builtin); ok && b.Name() == "recover" {
+							rec = true
+						}
+					}
+					if st, ok := x.(*ssa.Store); ok && isErrorType(st.Val.Type()) {
+						sets = true
+					}
+				})
+				if rec && sets {
+					recovers = true
+				}
+			})
+			if recovers {
+				r.ok("PARSE-RECOVER", key, w.PosOf(in), "a panic of the parser is recovered into the error result")
+			} else {
+				r.violation("PARSE-RECOVER", key, w.PosOf(in), "cronexpr."+o.Name()+" is called without a deferred recover: an expression that makes the parser panic panics the request")
+			}
+		})
+	}
+	if n == 0 {
+		r.exempt("PARSE-RECOVER", "call=cronexpr.Parse", "", "no call of cronexpr.Parse in rulio: not decided")
+	}
+}
+
+// JSON-QUOTE (C18, C15): a string pasted into a JSON text is a JSON string.
+func ruleJSONQuote(prop string, pkgs ...string) ruleFn {
+	return func(w *World, r *Report) {
+		r.Rule("JSON-QUOTE", "no fmt.Sprintf in the service layer (and in the cron hooks, which build the trigger event) builds a JSON object from a constant template in which a `%s` stands between double quotes (`{\"id\":\"%s\"}`) for a string that clients choose or that quotes client data (an id, a location, the text of an error): such a string is rendered with json.Marshal and pasted with a bare %s.  Quotes, backslashes and newlines in the string otherwise make the answer something that is not JSON — or, for the trigger event of a scheduled rule, JSON that names a different rule.  (Inert strings — the request id, a duration, a type name — are listed in the checker.)", 1)
+		inert := func(v ssa.Value) bool {
+			return dependsOn(v, func(x ssa.Value) bool {
+				c, ok := x.(*ssa.Call)
+				if !ok {
+					return false
+				}
+				o := calleeObj(c.Common())
+				if o == nil {
+					return false
+				}
+				if isMethodOf(o, modPath+"/core", "Context", "Id") {
+					return true
+				}
+				if o.Pkg() != nil && o.Pkg().Path() == "time" && o.Name() == "String" {
+					return true
+				}
+				return false
+			})
+		}
+		n := 0
+		for _, fn := range w.Funcs {
+			rel := w.RelPkg(fn)
+			okPkg := false
+			for _, p := range pkgs {
+				if rel == p {
+					okPkg = true
+				}
+			}
+			if !okPkg || isTestFile(w, fn) {
+				continue
+			}
+			allInstrs(fn, func(in ssa.Instruction) {
+				c := callOf(in)
+				if c == nil || !isPkgFunc(calleeObj(c), "fmt", "Sprintf") || len(c.Args) < 2 {
+					return
+				}
+				format, ok := constString(c.Args[0])
+				if !ok || !strings.HasPrefix(strings.TrimSpace(format), "{") {
+					return
+				}
+				// the verbs in order; which of them are quoted %s
+				var quoted []bool
+				for i := 0; i+1 < len(format); i++ {
+					if format[i] != '%' {
+						continue
+					}
+					if format[i+1] == '%' {
+						i++
+						continue
+					}
+					j := i + 1
+					for j < len(format) && strings.ContainsRune("+-# 0123456789.", rune(format[j])) {
+						j++
+					}
+					if j >= len(format) {
+						break
+					}
+					q := format[j] == 's' && i > 0 && format[i-1] == '"' && j+1 < len(format) && format[j+1] == '"'
+					quoted = append(quoted, q)
+					i = j
+				}
+				// the variadic arguments: stores into the backing array of the slice literal
+				args := variadicArgs(c.Args[1])
+				for vi, q := range quoted {
+					if !q {
+						continue
+					}
+					n++
+					key := "fn=" + fname(fn) + " format=" + format
+					if vi >= len(args) || args[vi] == nil {
+						r.exempt("JSON-QUOTE", key, w.PosOf(in), "could not identify the argument of the quoted %s: not decided")
+						continue
+					}
+					a := args[vi]
+					if _, isC := a.(*ssa.Const); isC || inert(a) {
+						r.ok("JSON-QUOTE", key, w.PosOf(in), "an inert string (request id, duration)")
+						continue
+					}
+					r.violation("JSON-QUOTE", key, w.PosOf(in), "a string is pasted between quotes into a JSON template without being rendered as a JSON string: a quote or backslash in it breaks (or changes the meaning of) the JSON")
+				}
+			})
+		}
+		r.stat("JSON-QUOTE.quoted_verbs", n)
+		if n == 0 {
+			r.ok("JSON-QUOTE", "none", "", "no JSON template pastes a string between quotes")
+		}
+	}
+}
+
+// variadicArgs: the values stored into the backing array of a variadic call's slice argument, by index.
+func variadicArgs(v ssa.Value) []ssa.Value {
+	sl, ok := v.(*ssa.Slice)
+	if !ok {
+		return nil
+	}
+	al, ok := sl.X.(*ssa.Alloc)
+	if !ok {
+		return nil
+	}
+	var out []ssa.Value
+	for _, ref := range *al.Referrers() {
+		ia, ok := ref.(*ssa.IndexAddr)
+		if !ok {
+			continue
+		}
+		idx, ok := ia.Index.(*ssa.Const)
+		if !ok || idx.Value == nil {
+			continue
+		}
+		i := int(idx.Int64())
+		for _, ref2 := range *ia.Referrers() {
+			if st, ok := ref2.(*ssa.Store); ok && st.Addr == ssa.Value(ia) {
+				for len(out) <= i {
+					out = append(out, nil)
+				}
+				val := st.Val
+				if mi, ok := val.(*ssa.MakeInterface); ok {
+					val = mi.X
+				}
+				out[i] = val
+			}
+		}
+	}
+	return out
+}
+
+// PARAM-PRESENCE (C18): a parameter's value decides, not its presence.
+func ruleParamPresence(w *World, r *Report) {
+	r.Rule("PARAM-PRESENCE", "in Service.ProcessRequest no call into the System is control-dependent on the mere presence of a key in the request map (the `ok` of a comma-ok lookup with a constant key, tested directly): `take=false` — in a query string, a JSON body or YAML — has to mean false.  (The typed getters return the value and a `given` flag; PARAM-VALUE decides that the flag is not used as the value.)", 1)
+	fn := w.Method("service", "Service", "ProcessRequest")
+	key := "fn=" + fname(fn)
+	sysT := w.Named("sys", "System")
+	n := 0
+	bad := ""
+	for _, b := range fn.Blocks {
+		if len(b.Instrs) == 0 {
+			continue
+		}
+		ifi, ok := b.Instrs[len(b.Instrs)-1].(*ssa.If)
+		if !ok {
+			continue
+		}
+		ct, ok := decodeIf(ifi)
+		if !ok {
+			continue
+		}
+		ex, ok := resolveSpill(ct.V).(*ssa.Extract)
+		if !ok || ex.Index != 1 {
+			continue
+		}
+		lk, ok := ex.Tuple.(*ssa.Lookup)
+		if !ok || !lk.CommaOk {
+			continue
+		}
+		k, isC := constKey(lk.Index)
+		if !isC || resolveSpill(lk.X) != ssa.Value(fn.Params[2]) {
+			continue
+		}
+		n++
+		// does the `present` branch alone lead to a System call?
+		present := b.Succs[0]
+		absent := b.Succs[1]
+		if ct.TrueWhen == "false" {
+			present, absent = absent, present
+		}
+		callsSys := func(start, avoid *ssa.BasicBlock) bool {
+			seen := map[*ssa.BasicBlock]bool{}
+			var dfs func(x *ssa.BasicBlock) bool
+			dfs = func(x *ssa.BasicBlock) bool {
+				if seen[x] || x == avoid {
+					return false
+				}
+				seen[x] = true
+				for _, in := range x.Instrs {
+					if c := callOf(in); c != nil {
+						if f := c.StaticCallee(); f != nil && f.Signature.Recv() != nil {
+							if rn := namedOf(f.Signature.Recv().Type()); rn != nil && types.Identical(rn, sysT) {
+								return true
+							}
+						}
+					}
+				}
+				for _, s := range x.Succs {
+					if !x.Dominates(s) {
+						continue // stay inside the region the branch dominates
+					}
+					if dfs(s) {
+						return true
+					}
+				}
+				return false
+			}
+			return dfs(start)
+		}
+		// a required parameter (absent => an error return) is not a switch
+		absentRefuses := false
+		if len(absent.Instrs) > 0 {
+			if ret, ok := absent.Instrs[len(absent.Instrs)-1].(*ssa.Return); ok && !isSuccessReturnPS(ret) {
+				absentRefuses = true
+			}
+		}
+		if absentRefuses {
+			continue
+		}
+		if b.Dominates(present) && present != absent && callsSys(present, absent) && !blockReaches(absent, present, b) {
+			bad = w.PosOf(ifi) + " (key " + k + ")"
+		}
+	}
+	switch {
+	case bad != "":
+		r.violation("PARAM-PRESENCE", key, bad, "a System operation is performed because a parameter is present, whatever its value: `take=false` removes the facts it finds")
+	default:
+		r.ok("PARAM-PRESENCE", key, w.Pos(fn.Pos()), itoa(n)+" direct presence test(s) of request keys, none decides a System operation")
+	}
+}
